@@ -106,8 +106,13 @@ CHECKS = {
              "sequences systematically for small requests (incl. single/double faults) in the default configuration and "
              "by strategy in the other 7, asserts identical data across all schedules and configurations, no pending "
              "resolver / live task after execute, no double start, and compares response + started/finished sets with "
-             "run_sched of the model inside Coq; each response is judged by the specification executor. PARTIAL: identical "
-             "data across the 2x2x2 configurations is decided per run, not proved; the asyncio runtime is outside the model.",
+             "run_sched of the model inside Coq; each response is judged by the specification executor. Also proved: the "
+             "executor written in the calculus, run with every coroutine completing at once, IS the state-passing executor of "
+             "C01-C03 (same data, errors and invocations in order: Proofs/AsyncBridge.v), hence under EVERY schedule and EVERY "
+             "sibling configuration a request for which the specification's algorithm has a result is answered with exactly "
+             "that data, and with the errors and invocations of the sequential run up to order. PARTIAL: the list- and "
+             "argument-coercion options are decided per run (the state-passing model does not distinguish them); the asyncio "
+             "runtime is outside the model.",
         note="Trusted: as C01 + the gated scheduler driver; asyncio task wake-up order beyond FIFO start, gather internals, "
              "cancellation, timeouts, thread-pool resolvers are runtime behaviour the model cannot exhibit.",
         design="4 C08"),
